@@ -15,7 +15,7 @@ MANIFEST = {
 		'corruption operators every corrupted rendering of a well-formed descriptor list is rejected with the line of the corruption '
 		'(unsupported width, wrong case class, unknown attribute, missing final line end, member outside a declaration, struct without '
 		'members); 24 operators x sites of all shipped schemas and of random documents are run against lark (must raise UnexpectedInput '
-		'with the model\'s line) and the CLI is run on import trees with one corrupted file (exit status != 0, no output file).',
+		'with the model\'s line) and the CLI is run on import trees with one corrupted file (exit status != 0, no output file). State-aware rejection at every kind of site (member, member attribute, enum value, declaration attribute, keyword line) with exact line and column, most catalogue operators at all their sites, missing final line end for every document (Cats/SyntaxRejectBodyProofs.v, SyntaxRejectEofProofs.v).',
 	'design_ref': 'DESIGN.md section 4, C11',
 	'technique': 'Coq proof over regenerated model + vm_compute correspondence with the lark-based parser + CLI runs',
 }
